@@ -28,6 +28,11 @@ package curve25519
 //@ class B2    = [1<<54, 1<<54, 1<<54, 1<<54, 1<<54]
 //@ class MULIN = [1<<54, 1<<54, 1<<54, 1<<54, 1<<54]
 //@ class HALF  = [1<<62, 1<<62, 1<<62, 1<<62, 1<<62]
+// layout-independent names used by the callers' contracts
+//@ class ADD1  = [1<<53, 1<<53, 1<<53, 1<<53, 1<<53]
+//@ class SUB1  = [1<<53, 1<<53, 1<<53, 1<<53, 1<<53]
+//@ class U1    = [1<<53, 1<<53, 1<<53, 1<<53, 1<<53]
+//@ class CANON = [1<<51 - 1, 1<<51 - 1, 1<<51 - 1, 1<<51 - 1, 1<<51 - 1]
 
 //@ func (*Bignum25519).Reset(out)
 //@   modifies *out
@@ -115,7 +120,7 @@ package curve25519
 //@ func Expand(out, in)
 //@   requires len(in) >= 32
 //@   modifies *out
-//@   ensures forall(i, 0, 5, out[i] < 1<<51)
+//@   ensures mag(*out, CANON)
 //@   ensures fval(*out) == le(in[0:32]) % (1<<255)
 
 //@ func Contract(out, input)
@@ -133,22 +138,151 @@ package curve25519
 //@   ensures iswap == 1 ==> (*a == old(*b) && *b == old(*a))
 //@   ensures iswap == 0 ==> (*a == old(*a) && *b == old(*b))
 
+
+// ===================================================================
+// 32-bit layout: 10 limbs of alternately 26 and 25 bits
+// ===================================================================
+
+//@ config limbs32
+//@ spec fval(x) = x[0] + x[1]<<26 + x[2]<<51 + x[3]<<77 + x[4]<<102 + x[5]<<128 + x[6]<<153 + x[7]<<179 + x[8]<<204 + x[9]<<230
+//
+//   RED   output of Mul/Square/SquareTimes/AddAfterBasic/SubAfterBasic/...Reduce/Neg/Expand
+//   ADD1  Add of two RED operands (no carry)
+//   SUB1  Sub of two RED operands (limbs 0..3 carried, 4..9 biased by 2p)
+//   U1    limb-wise maximum of ADD1 and SUB1
+//@ class CANON = [1<<26 - 1, 1<<25 - 1, 1<<26 - 1, 1<<25 - 1, 1<<26 - 1, 1<<25 - 1, 1<<26 - 1, 1<<25 - 1, 1<<26 - 1, 1<<25 - 1]
+//@ class RED   = [1<<26 + 1<<13, 1<<25 + 1<<13, 1<<26 + 1<<13, 1<<25 + 1<<13, 1<<26 + 1<<13, 1<<25 + 1<<13, 1<<26 + 1<<13, 1<<25 + 1<<13, 1<<26 + 1<<13, 1<<25 + 1<<13]
+//@ class ADD1  = [1<<27 + 1<<14, 1<<26 + 1<<14, 1<<27 + 1<<14, 1<<26 + 1<<14, 1<<27 + 1<<14, 1<<26 + 1<<14, 1<<27 + 1<<14, 1<<26 + 1<<14, 1<<27 + 1<<14, 1<<26 + 1<<14]
+//@ class SUB1  = [1<<26, 1<<25, 1<<26, 1<<25, 3<<26 + 1<<14, 3<<25 + 1<<13, 3<<26 + 1<<13, 3<<25 + 1<<13, 3<<26 + 1<<13, 3<<25 + 1<<13]
+//@ class U1    = [1<<27 + 1<<14, 1<<26 + 1<<14, 1<<27 + 1<<14, 1<<26 + 1<<14, 3<<26 + 1<<14, 3<<25 + 1<<14, 3<<26 + 1<<14, 3<<25 + 1<<14, 3<<26 + 1<<14, 3<<25 + 1<<14]
+//@ class TWOP  = [0x07ffffda, 0x03fffffe, 0x07fffffe, 0x03fffffe, 0x07fffffe, 0x03fffffe, 0x07fffffe, 0x03fffffe, 0x07fffffe, 0x03fffffe]
+//@ class FOURP = [0x0fffffb4, 0x07fffffc, 0x0ffffffc, 0x07fffffc, 0x0ffffffc, 0x07fffffc, 0x0ffffffc, 0x07fffffc, 0x0ffffffc, 0x07fffffc]
+//@ class HALF  = [1<<30, 1<<30, 1<<30, 1<<30, 1<<30, 1<<30, 1<<30, 1<<30, 1<<30, 1<<30]
+//@ class B2    = [1<<27 + 1<<14, 1<<26 + 1<<14, 1<<27 + 1<<14, 1<<26 + 1<<14, 3<<26 + 1<<14, 3<<25 + 1<<14, 3<<26 + 1<<14, 3<<25 + 1<<14, 3<<26 + 1<<14, 3<<25 + 1<<14]
+
+//@ func (*Bignum25519).Reset(out)
+//@   modifies *out
+//@   ensures forall(i, 0, 10, out[i] == 0)
+
+//@ func Copy(out, in)
+//@   alias out==in
+//@   modifies *out
+//@   ensures *out == old(*in)
+
+//@ func Add(out, a, b)
+//@   alias out==a | out==b | a==b | out==a==b
+//@   requires mag(*a, HALF) && mag(*b, HALF)
+//@   modifies *out
+//@   ensures forall(i, 0, 10, out[i] == old(a[i]) + old(b[i]))
+
+//@ func AddAfterBasic(out, a, b)
+//@   alias out==a | out==b | a==b | out==a==b
+//@   requires mag(*a, U1) && mag(*b, U1)
+//@   modifies *out
+//@   ensures mag(*out, RED)
+//@   ensures cong(fval(*out), fval(old(*a)) + fval(old(*b)), P)
+
+//@ func AddReduce(out, a, b)
+//@   alias out==a | out==b | a==b | out==a==b
+//@   requires mag(*a, U1) && mag(*b, U1)
+//@   modifies *out
+//@   ensures mag(*out, RED)
+//@   ensures cong(fval(*out), fval(old(*a)) + fval(old(*b)), P)
+
+//@ func Sub(out, a, b)
+//@   alias out==a | out==b | a==b | out==a==b
+//@   requires mag(*a, RED) && mag(*b, RED)
+//@   modifies *out
+//@   ensures mag(*out, SUB1)
+//@   ensures cong(fval(*out), fval(old(*a)) - fval(old(*b)), P)
+
+//@ func SubAfterBasic(out, a, b)
+//@   alias out==a | out==b | a==b | out==a==b
+//@   requires mag(*a, U1) && mag(*b, U1)
+//@   modifies *out
+//@   ensures mag(*out, RED)
+//@   ensures cong(fval(*out), fval(old(*a)) - fval(old(*b)), P)
+
+//@ func SubReduce(out, a, b)
+//@   alias out==a | out==b | a==b | out==a==b
+//@   requires mag(*a, U1) && mag(*b, U1)
+//@   modifies *out
+//@   ensures mag(*out, RED)
+//@   ensures cong(fval(*out), fval(old(*a)) - fval(old(*b)), P)
+
+//@ func Neg(out, a)
+//@   alias out==a
+//@   requires mag(*a, TWOP)
+//@   modifies *out
+//@   ensures mag(*out, RED)
+//@   ensures cong(fval(*out), 0 - fval(old(*a)), P)
+
+//@ func Mul(out, a, b)
+//@   alias out==a | out==b | a==b | out==a==b
+//@   cases mag(*a, U1) && mag(*b, ADD1) | mag(*a, U1) && mag(*b, SUB1) | mag(*a, ADD1) && mag(*b, U1) | mag(*a, SUB1) && mag(*b, U1)
+//@   modifies *out
+//@   ensures mag(*out, RED)
+//@   ensures cong(fval(*out), fval(old(*a)) * fval(old(*b)), P)
+
+//@ func Square(out, in)
+//@   alias out==in
+//@   cases mag(*in, ADD1) | mag(*in, SUB1)
+//@   modifies *out
+//@   ensures mag(*out, RED)
+//@   ensures cong(fval(*out), fval(old(*in)) * fval(old(*in)), P)
+
+//@ func SquareTimes(out, in, count)
+//@   alias out==in
+//@   cases mag(*in, ADD1) && count >= 0 | mag(*in, SUB1) && count >= 0
+//@   modifies *out
+//@   loop#1 modifies i, r0, r1, r2, r3, r4, r5, r6, r7, r8, r9
+//@   loop#1 invariant 1 <= i && i <= count
+//@   loop#1 peel 1
+//@   loop#1 invariant r0 <= 1<<26 + 1<<13 && r1 <= 1<<25 + 1<<13 && r2 <= 1<<26 + 1<<13 && r3 <= 1<<25 + 1<<13 && r4 <= 1<<26 + 1<<13 && r5 <= 1<<25 + 1<<13 && r6 <= 1<<26 + 1<<13 && r7 <= 1<<25 + 1<<13 && r8 <= 1<<26 + 1<<13 && r9 <= 1<<25 + 1<<13
+//@   loop#1 invariant cong(r0 + r1<<26 + r2<<51 + r3<<77 + r4<<102 + r5<<128 + r6<<153 + r7<<179 + r8<<204 + r9<<230, sqn(fval(old(*in)), i, P), P)
+//@   ensures count >= 1 ==> mag(*out, RED)
+//@   ensures mag(*out, U1)
+//@   ensures cong(fval(*out), sqn(fval(old(*in)), count, P), P)
+
+//@ func Expand(out, in)
+//@   requires len(in) >= 32
+//@   modifies *out
+//@   ensures mag(*out, CANON)
+//@   ensures fval(*out) == le(in[0:32]) % (1<<255)
+
+//@ func Contract(out, in)
+//@   requires len(out) >= 32 && mag(*in, U1)
+//@   modifies out[0:32]
+//@   cut call#2 havoc f : f[0] < 1<<26 + 1<<10 && forall(i, 1, 10, f[i] <= ite(i % 2 == 0, 1<<26 - 1, 1<<25 - 1)) && cong(fval(f), fval(old(*in)), P)
+//@   cut call#3 havoc f : mag(f, CANON) && cong(fval(f), fval(old(*in)), P)
+//@   cut call#4 havoc f : mag(f, CANON) && fval(f) == fval(old(*in)) % P + 19
+//@   cut call#5 havoc f : mag(f, CANON) && fval(f) == fval(old(*in)) % P
+//@   ensures le(out[0:32]) == fval(old(*in)) % P
+
+//@ func SwapConditional(a, b, iswap)
+//@   requires iswap == 0 || iswap == 1
+//@   modifies *a, *b
+//@   ensures iswap == 1 ==> (*a == old(*b) && *b == old(*a))
+//@   ensures iswap == 0 ==> (*a == old(*a) && *b == old(*b))
+
+//@ config any
+
 //@ func powTwo5two0Two250mtwo0(b)
-//@   requires mag(*b, MULIN)
+//@   requires mag(*b, RED)
 //@   modifies *b
 //@   ensures mag(*b, RED)
 //@   ensures cong(fval(*b), pow(fval(old(*b)), (1<<250 - 1) / 31), P)
 
 //@ func Recip(out, z)
 //@   alias out==z
-//@   requires mag(*z, MULIN)
+//@   cases mag(*z, ADD1) | mag(*z, SUB1)
 //@   modifies *out
 //@   ensures mag(*out, RED)
 //@   ensures cong(fval(*out), pow(fval(old(*z)), P - 2), P)
 
 //@ func PowTwo252m3(two252m3, z)
 //@   alias two252m3==z
-//@   requires mag(*z, MULIN)
+//@   cases mag(*z, ADD1) | mag(*z, SUB1)
 //@   modifies *two252m3
 //@   ensures mag(*two252m3, RED)
 //@   ensures cong(fval(*two252m3), pow(fval(old(*z)), (1<<252) - 3), P)
